@@ -2793,6 +2793,15 @@ def _need_exponent_sign_bit_check(max_value):
   return need_exponent_sign_bit
 
 
+def _po2_max_value_str(max_value):
+  """Prints max_value of the po2 quantizers so that it parses back."""
+  if max_value is None:
+    return "None"
+  if max_value == int(max_value):
+    return str(int(max_value))
+  return str(max_value)
+
+
 def _get_min_max_exponents(non_sign_bits, need_exponent_sign_bit,
                            quadratic_approximation):
   """Given a bitwidth, gets min and max exponents that it can represent.
@@ -2873,7 +2882,7 @@ class quantized_po2(base_quantizer.BaseQuantizer):  # pylint: disable=invalid-na
   def __str__(self):
     flags = [str(self.bits)]
     if self.max_value is not None or self.use_stochastic_rounding:
-      flags.append(str(int(self.max_value)))
+      flags.append(_po2_max_value_str(self.max_value))
     if self.use_stochastic_rounding:
       flags.append(str(int(self.use_stochastic_rounding)))
     if self.quadratic_approximation:
@@ -3016,9 +3025,10 @@ class quantized_relu_po2(base_quantizer.BaseQuantizer):  # pylint: disable=inval
 
   def __str__(self):
     flags = [str(self.bits)]
-    if self.max_value is not None or self.use_stochastic_rounding:
-      flags.append(str(int(self.max_value)))
-    if self.negative_slope:
+    if (self.max_value is not None or self.negative_slope or
+        self.use_stochastic_rounding):
+      flags.append(_po2_max_value_str(self.max_value))
+    if self.negative_slope or self.use_stochastic_rounding:
       flags.append(str(self.negative_slope))
     if self.use_stochastic_rounding:
       flags.append(str(int(self.use_stochastic_rounding)))
